@@ -137,6 +137,14 @@ def run(ctx):
                fn=b.path, construct="library-ok", where=b.where(bb), nontrivial=False)
 
     # ---- zero-column-count -------------------------------------------------------------------
+    # "counts arrive exactly" for every count a shim can produce: the field that counts the rows of a zero-column resultset is as wide as
+    # the count the OK packet carries (u64) or the platform's usize; a narrower counter panics (debug) or wraps (release) at its maximum
+    rwa = [a for p_, a in prog.adts.items() if p_.endswith("resultset::RowWriter") and a.get("local")]
+    if ctx.floor("C14.zero-column-count", "the RowWriter type", len(rwa), 1):
+        colf = [f_ for v_ in rwa[0].get("variants", []) for f_ in v_.get("fields", []) if f_["name"] == "col"]
+        if colf:
+            ctx.ob("C14.zero-column-count", colf[0]["ty"] in ("usize", "u64"), "the row counter of zero-column resultsets (`RowWriter.col`) is a %s: counts above its maximum cannot be reported" % colf[0]["ty"],
+                   fn="resultset::RowWriter", construct="counter-width", nontrivial=False)
     er = prog.one(r"^resultset::RowWriter::<'a, W>::end_row$")
     wc = prog.one(r"^resultset::RowWriter::<'a, W>::write_col$")
     wr = prog.one(r"^resultset::RowWriter::<'a, W>::write_row$")
